@@ -425,7 +425,8 @@ def show(e):
     if k == "Const":
         return e["v"]
     if k == "Paren":
-        return "(" + show(e["e"]) + ")"
+        inner = show(e["e"])
+        return inner if e["e"].get("k") == "Binop" else "(" + inner + ")"
     if k == "Index":
         if e.get("dot"):
             return show(e["obj"]) + "." + e["key"]["v"]
@@ -437,7 +438,7 @@ def show(e):
     if k == "Binop":
         return "(" + show(e["l"]) + " " + e["op"] + " " + show(e["r"]) + ")"
     if k == "Unop":
-        return e["op"] + " " + show(e["e"])
+        return e["op"] + (" " if e["op"] == "not" else "") + show(e["e"])
     if k == "Table":
         return "{" + ", ".join((str(i[1]) + "=" if i[0] == "field" else "[" + show(i[1]) + "]=" if i[0] == "key" else "") + show(i[2]) for i in e["items"]) + "}"
     if k == "Function":
